@@ -246,6 +246,14 @@ func runC30(t *testing.T, tape *simrt.Tape, env dst.Env) *simrt.Outcome {
 				case 2:
 					d.AuthKey = d.AuthKey[:255-tape.Choose(simrt.Fault, 200)]
 					corruptWhat = "truncated key"
+					if bytes.Equal(storedKey.Value[len(d.AuthKey):], make([]byte, 256-len(d.AuthKey))) {
+						// only zero bytes were cut off: zero-padding restores the key,
+						// so cut into the non-zero part as well
+						for len(d.AuthKey) > 1 && d.AuthKey[len(d.AuthKey)-1] == 0 {
+							d.AuthKey = d.AuthKey[:len(d.AuthKey)-1]
+						}
+						d.AuthKey = d.AuthKey[:len(d.AuthKey)-1]
+					}
 				default:
 					other := w.freshKey()
 					d.AuthKeyID = append([]byte(nil), other.ID[:]...)
